@@ -22,6 +22,111 @@ pub const JUNK: [&str; 16] = [
     r#"<rect transform="scale(0)" width="500" height="500" fill="red"/><g transform="matrix(0 0 0 0 0 0)"><rect width="9" height="9"/></g>"#,
 ];
 
+/// one piece of content that must not render, drawn from every kind the statement lists
+pub fn junk_item(rng: &mut Rng, serial: usize) -> (&'static str, String) {
+    let kind = rng.below(13);
+    let names = ["comment-pi-space", "unknown-element", "display-none", "unreferenced-def", "failing-condition", "zero-size-shape", "empty-geometry", "invalid-transform", "dangling-use-empty-containers", "never-rendered-elements", "shape-without-size", "undecodable-image", "fixed-list"];
+    (names[kind as usize], junk_item_of(rng, serial, kind))
+}
+
+fn junk_item_of(rng: &mut Rng, serial: usize, kind: u64) -> String {
+    let paint = *rng.pick(&[r#"fill="red""#, r#"fill="none" stroke="red" stroke-width="6""#, r#"fill="red" stroke="blue" stroke-width="3" stroke-linecap="round" stroke-linejoin="round""#]);
+    let big = |rng: &mut Rng| *rng.pick(&["30", "500", "7.5", "1e3"]);
+    match kind {
+        0 => JUNK[rng.below(3) as usize].to_string(),
+        1 => {
+            // unknown / foreign elements and attributes
+            let name = *rng.pick(&["foo", "x:bar", "sodipodi:namedview", "metadata", "foreignObject", "animate", "set", "script", "view", "cursor", "font", "glyph"]);
+            let ns = if name.contains(':') { format!(r#" xmlns:{}="urn:junk""#, name.split(':').next().unwrap()) } else { String::new() };
+            format!(r#"<{name}{ns} bogus="1" width="50" height="50" {paint}><rect width="{}" height="50" {paint}/>text</{name}>"#, big(rng))
+        }
+        2 => {
+            // display:none in all spellings
+            let how = *rng.pick(&[r#"display="none""#, r#"style="display:none""#, r#"style="display: none !important" display="inline""#]);
+            if rng.chance(1, 2) {
+                format!(r#"<g {how}><rect width="{}" height="500" {paint}/><circle r="40" {paint}/></g>"#, big(rng))
+            } else {
+                format!(r#"<rect {how} width="{}" height="500" {paint}/>"#, big(rng))
+            }
+        }
+        3 => {
+            // unreferenced definitions of every kind, ids from a reserved namespace
+            let k = serial * 16 + rng.below(16) as usize;
+            match rng.below(7) {
+                0 => format!(r#"<linearGradient id="vz{k}a"><stop offset="0" stop-color="red"/><stop offset="1"/></linearGradient>"#),
+                1 => format!(r#"<radialGradient id="vz{k}b" r="5"><stop offset="0" stop-color="red"/></radialGradient>"#),
+                2 => format!(r#"<pattern id="vz{k}c" width="5" height="5" patternUnits="userSpaceOnUse"><rect width="5" height="5" {paint}/></pattern>"#),
+                3 => format!(r#"<clipPath id="vz{k}d"><rect width="5" height="5"/></clipPath>"#),
+                4 => format!(r#"<mask id="vz{k}e"><rect width="5" height="5" fill="white"/></mask>"#),
+                5 => format!(r#"<filter id="vz{k}f"><feFlood flood-color="red"/><feOffset dx="3"/></filter>"#),
+                _ => format!(r#"<marker id="vz{k}g" markerWidth="9" markerHeight="9"><rect width="5" height="5" {paint}/></marker><symbol id="vz{k}h"><rect width="50" height="50" {paint}/></symbol>"#),
+            }
+        }
+        4 => {
+            // switch whose branches all fail; conditional attributes on plain elements
+            let fail = *rng.pick(&[r#"requiredExtensions="none""#, r#"requiredExtensions="http://example.org/ext""#, r#"requiredFeatures="""#, r#"requiredFeatures="  ""#, r#"requiredFeatures="http://www.w3.org/TR/SVG11/feature#Bogus""#, r#"systemLanguage="xx""#, r#"systemLanguage="""#]);
+            match rng.below(3) {
+                0 => format!(r#"<switch><rect {fail} width="{}" height="500" {paint}/><g {fail}><circle r="30" {paint}/></g></switch>"#, big(rng)),
+                1 => format!(r#"<rect {fail} width="{}" height="500" {paint}/>"#, big(rng)),
+                _ => format!(r#"<g {fail}><rect width="{}" height="40" {paint}/></g>"#, big(rng)),
+            }
+        }
+        5 => {
+            // zero-sized basic shapes, each with the other dimension given explicitly
+            // (negative radii are "invalid, use auto" for ellipses, and -0 takes that road: not in the statement's list)
+            let z = *rng.pick(&["0", "0.0", "0px", "0%", "0e5", "0mm"]);
+            let n = big(rng);
+            match rng.below(8) {
+                0 => format!(r#"<rect x="5" y="5" width="{z}" height="{n}" {paint}/>"#),
+                1 => format!(r#"<rect x="5" y="5" width="{n}" height="{z}" {paint}/>"#),
+                2 => format!(r#"<circle cx="20" cy="20" r="{z}" {paint}/>"#),
+                3 => format!(r#"<ellipse cx="20" cy="20" rx="{z}" ry="{n}" {paint}/>"#),
+                4 => format!(r#"<ellipse cx="20" cy="20" rx="{n}" ry="{z}" {paint}/>"#),
+                5 => format!(r#"<ellipse cx="20" cy="20" rx="{z}" ry="{z}" {paint}/>"#),
+                6 => format!(r#"<rect x="5" y="5" width="{z}" height="{z}" rx="{n}" {paint}/>"#),
+                _ => format!(r#"<image x="5" y="5" width="{z}" height="{n}"/>"#),
+            }
+        }
+        6 => {
+            // paths / polylines without geometry
+            // (a closed or zero-length sub-path may paint a cap, so `M x y Z` is not in this list)
+            let d = *rng.pick(&["", "M 10 10", "L 10 10 20 20", "10 10", "M", "M 10 10 M 20 20", "Z", "  "]);
+            match rng.below(3) {
+                0 => format!(r#"<path d="{d}" {paint}/>"#),
+                1 => format!(r#"<polyline points="{}" {paint}/>"#, rng.pick(&["", "10", "10 10", "10,10,", "a b"])),
+                _ => format!(r#"<polygon points="{}" {paint}/>"#, rng.pick(&["", "10", "10 10", "10,10,"])),
+            }
+        }
+        7 => {
+            // invalid (non-invertible / unparsable-as-valid) transforms
+            let t = *rng.pick(&["scale(0)", "matrix(0 0 0 0 0 0)", "scale(0 1)", "scale(1 0)", "matrix(0 0 0 0 10 10)", "scale(0) translate(5 5)", "rotate(30) scale(0 0)"]);
+            if rng.chance(1, 2) {
+                format!(r#"<rect transform="{t}" width="{}" height="500" {paint}/>"#, big(rng))
+            } else {
+                format!(r#"<g transform="{t}"><rect width="{}" height="90" {paint}/><circle r="9" {paint}/></g>"#, big(rng))
+            }
+        }
+        8 => {
+            // references to nothing / to non-renderable targets
+            match rng.below(4) {
+                0 => r##"<use xlink:href="#vz-missing" xmlns:xlink="http://www.w3.org/1999/xlink"/>"##.to_string(),
+                1 => r##"<use href="#vz-missing" x="5"/>"##.to_string(),
+                2 => format!(r#"<text></text><text x="5" y="5" {paint}>   </text>"#),
+                // (empty containers are kept as empty groups by usvg; the statement does not list them)
+                _ => format!(r#"<defs><rect width="{}" height="50" {paint}/><g><circle r="5" {paint}/></g></defs>"#, big(rng)),
+            }
+        }
+        9 => {
+            // elements that never render directly
+            format!(r#"<symbol><rect width="{}" height="50" {paint}/></symbol><title>t</title><desc>d</desc><style>.vz {{ fill: red }}</style>"#, big(rng))
+        }
+        // (a `line` without coordinates is a zero-length line, which may paint caps: not listed)
+        10 => format!(r#"<circle cx="10" cy="10" {paint}/><ellipse cx="10" cy="10" {paint}/><rect x="3" y="3" {paint}/>"#),
+        11 => format!(r#"<image x="1" y="1" width="20" height="20" xlink:href="data:image/png;base64,AAAA" xmlns:xlink="http://www.w3.org/1999/xlink"/><image width="20" height="20"/>"#),
+        _ => (*rng.pick(&JUNK)).to_string(),
+    }
+}
+
 /// positions where a structural container's content starts (right after its start tag) or ends
 fn positions(svg: &str) -> Vec<usize> {
     let mut v = vec![];
@@ -75,6 +180,11 @@ fn forbidden(svg: &str) -> Vec<(usize, usize)> {
 }
 
 pub fn insert_junk(svg: &str, rng: &mut Rng, count: usize) -> Option<String> {
+    insert_junk_items(svg, rng, count).map(|(doc, _)| doc)
+}
+
+/// the document with `count` insertions, and each insertion on its own (kind, document)
+pub fn insert_junk_items(svg: &str, rng: &mut Rng, count: usize) -> Option<(String, Vec<(&'static str, String)>)> {
     if svg.contains("first-child") || svg.contains("<!DOCTYPE") || svg.contains("<![CDATA[") {
         return None;
     }
@@ -83,13 +193,23 @@ pub fn insert_junk(svg: &str, rng: &mut Rng, count: usize) -> Option<String> {
     if pos.is_empty() {
         return None;
     }
-    let mut ins: Vec<(usize, &str)> = (0..count).map(|_| (*rng.pick(&pos), *rng.pick(&JUNK))).collect();
+    let mut ins: Vec<(usize, &'static str, String)> = (0..count)
+        .map(|i| {
+            let p = *rng.pick(&pos);
+            let (k, j) = junk_item(rng, i);
+            (p, k, j)
+        })
+        .collect();
     ins.sort_by(|a, b| b.0.cmp(&a.0));
     let mut out = svg.to_string();
-    for (p, j) in ins {
-        out.insert_str(p, j);
+    let mut singles = vec![];
+    for (p, k, j) in &ins {
+        out.insert_str(*p, j);
+        let mut one = svg.to_string();
+        one.insert_str(*p, j);
+        singles.push((*k, one));
     }
-    Some(out)
+    Some((out, singles))
 }
 
 fn tree_and_pixels(svg: &str, o: &usvg::Options) -> Option<(String, Option<tiny_skia::Pixmap>)> {
@@ -113,21 +233,35 @@ pub fn search(tier: &str, seed: u64, s: &mut Search) {
     let mult = budget_mult() as usize;
     let mut check = |s: &mut Search, class: &str, key: &str, svg: &str, o: &usvg::Options, rng: &mut Rng| {
         let k = 1 + rng.below(8) as usize;
-        let Some(j) = insert_junk(svg, rng, k) else { return };
+        let Some((j, singles)) = insert_junk_items(svg, rng, k) else { return };
         let Some((ta, pa)) = tree_and_pixels(svg, o) else { return };
-        let Some((tb, pb)) = tree_and_pixels(&j, o) else {
-            s.case(class, key, false);
-            s.finding(&format!("oracle:junk:{}:rejected-or-panicked", class), "the document with inserted non-rendered content no longer parses", &j);
-            return;
+        // compare one candidate against the original; Some((what, effect)) when it differs
+        let differs = |doc: &str| -> Option<&'static str> {
+            match tree_and_pixels(doc, o) {
+                None => Some("rejected-or-panicked"),
+                Some((tb, pb)) => {
+                    if ta != tb {
+                        Some("tree-changed")
+                    } else if let (Some(pa), Some(pb)) = (&pa, &pb) {
+                        if pa.data() != pb.data() { Some("pixels-changed") } else { None }
+                    } else {
+                        None
+                    }
+                }
+            }
         };
         s.case(class, key, ta.len() > 120);
-        if ta != tb {
-            s.finding(&format!("oracle:junk:{}:tree-changed", class), "inserting non-rendered content changed the written tree", &j);
-            return;
-        }
-        if let (Some(pa), Some(pb)) = (pa, pb) {
-            if pa.data() != pb.data() {
-                s.finding(&format!("oracle:junk:{}:pixels-changed", class), "inserting non-rendered content changed the rendering", &j);
+        if let Some(effect) = differs(&j) {
+            // which single insertion is responsible?
+            let mut blamed = false;
+            for (kind, one) in &singles {
+                if let Some(e1) = differs(one) {
+                    s.finding(&format!("oracle:junk:{}:{}", kind, e1), &format!("inserting non-rendered content ({}) into a {} document: {}", kind, class, e1), one);
+                    blamed = true;
+                }
+            }
+            if !blamed {
+                s.finding(&format!("oracle:junk:combination:{}", effect), "several insertions together change the result although none does alone", &j);
             }
         }
     };
